@@ -81,3 +81,15 @@ def register_all(prop):
                "bit-exactly through the visitor's wrappers (keyed by sk) and the proxy's (keyed by the token) in all 16 combinations. non-trivial = "
                "request against an existing proxy where signature validity and run-id validity differ, or an admitted stream with differing wrappers."),
          assumptions=["nathole.NatHoleTimeout (exported variable) is set to 1 s by the harness", "sudp admitted streams carry protocol messages: only admission is decided here, payloads in C03"])
+    prop("C20", qshards=8, tshards=16, qlimit=480, tlimit=3600,
+         rule=("controller_exchange: generated NAT observations for visitor and owner (2..5 mapped addresses shaped easy / regular port change / irregular "
+               "/ IP change / both / too short / one malformed or out-of-range entry; 0..3 assisted addresses; IPv4 and IPv6) go through "
+               "nathole.Controller with stub transporters, incl. duplicate NatHoleClient, reports for unknown sids and a third control; oracle = same "
+               "sid and mode, complementary roles, each side gets the other's compacted lists, port ranges within 1..65535 with from <= to, role rule "
+               "by mode from an independent re-implementation of the documented classification, malformed => error to both and no instruction, "
+               "exactly one response per party, none to third parties. analyzer_roles: the same oracle on nathole.Analyzer under histories of 0..30 "
+               "earlier rounds with/without success reports; analyzer_exhaustive enumerates all 100 feature pairs x all 128 report histories of "
+               "length 7. makehole_loopback: both instruction sets executed by nathole.MakeHole on loopback sockets. session_footprint (real frps): "
+               "sessions exist only for signed requests naming a live xtcp proxy and are removed after timeout / completion. non-trivial = a hard side, a "
+               "non-empty history, or malformed input."),
+         assumptions=["real NATs are not simulated: 'find each other' is shown on unfiltered loopback only", "nathole.NatHoleTimeout set to 1 s through its exported variable"])
